@@ -719,7 +719,7 @@ def analyse(rep: Report) -> None:
              floor=4)
     rep.rule('R10.5', 'the drm selection parser keeps no state between listed systems', floor=1)
     rep.rule('R10.6', 'box paths name direct children (ISO/IEC 14496-12 containment)', floor=10)
-    rep.rule('R10.7', 'pssh boxes list the key ids of the key set unchanged', floor=3)
+    rep.rule('R10.7', 'pssh boxes list the key ids of the key set unchanged', floor=2)
     r10_1(rep)
     r10_2(rep)
     location_gating(rep, 'R10.3')
